@@ -337,18 +337,21 @@ Section WithCodec.
         destruct r; [reflexivity | discriminate]. }
       constructor; cbn [mp_fracs mp_active].
       + rewrite app_assoc, map_app. apply nodup_app2; [exact NS | cbn; constructor; [intros [] | constructor] |].
-        intros i Hi [<- | []]. apply in_map_iff in Hi. destruct Hi as ([j r] & E & Hi). cbn in E. subst j.
+        intros i Hi Hx. destruct Hx as [Ex | []]. cbn in Ex.
+        apply in_map_iff in Hi. destruct Hi as ([j r] & E & Hi). cbn in E. subst j.
         destruct (SV i r Hi) as (Hlt & _). lia.
       + intros i r Hi. rewrite app_assoc in Hi. apply in_app_or in Hi. destruct Hi as [Hi | [Hi | []]].
         * destruct (SV i r Hi) as (A & B & _). split; [lia |]. rewrite upd_other by lia. exact B.
-        * inversion Hi. subst i r. split; [lia |]. rewrite upd_same. destruct (Hbey next (le_n _)) as (_ & ->).
+        * assert (E1 : i = next) by (inversion Hi; auto).
+          assert (E2 : r = RActive (Proc 0 0 [])) by (inversion Hi; auto).
+          rewrite E1, E2. split; [lia |]. rewrite upd_same. destruct (Hbey next (le_n _)) as (_ & ->).
           replace (lrun create_prog _) with (lrun create_prog no_fd) by (f_equal; symmetry; exact Dn).
           cbn. repeat split; auto.
       + exists (Proc 0 0 []). apply in_or_app. right. apply in_or_app. right. left. reflexivity.
       + intros i Hne. destruct (ALL i Hne) as (r & Hr). exists r. rewrite app_assoc. apply in_or_app. left. exact Hr.
       + intros i p Hi Hne. rewrite app_assoc in Hi. apply in_app_or in Hi. destruct Hi as [Hi | [Hi | []]].
         * destruct (SV i _ Hi) as (_ & _ & C). apply C. reflexivity.
-        * inversion Hi; subst. contradiction.
+        * assert (E1 : i = next) by (inversion Hi; auto). contradiction.
   Qed.
 
   (* the start-up dies: every fraction at a prefix of its own operations *)
